@@ -401,9 +401,15 @@ class SSqrt(Sym):
                 self._val = SNum(z3.If(lin >= 0, lin, -lin))
             else:
                 c = ctx()
-                r = c.fresh_real("sqrt")
-                c.assume(z3.And(r >= 0, r * r == self.rad))
-                self._val = SNum(r)
+                cache = c.__dict__.setdefault("_sqrt_cache", {})
+                hit = cache.get(self.rad.get_id())
+                if hit is not None and hit[0].eq(self.rad):
+                    self._val = hit[1]          # same radicand -> same root symbol
+                else:
+                    r = c.fresh_real("sqrt")
+                    c.assume(z3.And(r >= 0, r * r == self.rad))
+                    self._val = SNum(r)
+                    cache[self.rad.get_id()] = (self.rad, self._val)
         return self._val
 
     def _cmp(self, o, name):
